@@ -685,6 +685,7 @@ class CParser:
                 type=[c_ast.IdentifierType(["int"], coord=decl.coord)],
                 function=[],
             )
+            self._add_function_parameters(decl)
             func = self._build_function_definition(
                 spec=spec,
                 decl=decl,
@@ -714,6 +715,7 @@ class CParser:
                 self._parse_error("Invalid function definition", decl.coord)
             if not spec["type"]:
                 spec["type"] = [c_ast.IdentifierType(["int"], coord=spec_coord)]
+            self._add_function_parameters(decl)
             func = self._build_function_definition(
                 spec=spec,
                 decl=decl,
@@ -1378,18 +1380,21 @@ class CParser:
             )
             self._expect("RPAREN")
 
-        func = c_ast.FuncDecl(args=args, type=None, coord=base_decl.coord)
+        return c_ast.FuncDecl(args=args, type=None, coord=base_decl.coord)
 
-        if self._peek_type() == "LBRACE":
-            if func.args is not None:
-                for param in func.args.params:
-                    if isinstance(param, c_ast.EllipsisParam):
-                        break
-                    name = getattr(param, "name", None)
-                    if name:
-                        self._add_identifier(name, param.coord)
-
-        return func
+    def _add_function_parameters(self, decl: c_ast.Node) -> None:
+        """Enter the parameters of the function being defined into the scope
+        of its body, which the lexer opened when it saw the body's '{'. They
+        are the parameters of the declarator part nearest the name, e.g. 'a'
+        in 'int (*f(int a))(int b) { ... }'.
+        """
+        if isinstance(decl, c_ast.FuncDecl) and decl.args is not None:
+            for param in decl.args.params:
+                if isinstance(param, c_ast.EllipsisParam):
+                    break
+                name = getattr(param, "name", None)
+                if name:
+                    self._add_identifier(name, param.coord)
 
     # BNF: pointer : '*' type_qualifier_list? pointer?
     def _parse_pointer(self) -> Optional[c_ast.Node]:
